@@ -35,7 +35,7 @@ func (in *Inst) call(x *ssa.Call, st *State) {
 		args = append(args, in.val(a, st))
 	}
 	if c.IsInvoke() {
-		if con := e.W.ifaceContract(c); con != nil {
+		if con := e.W.ifaceContract(c); con != nil && (!e.abstract || con.AbstractToo || e.W.ghostRelevant(con)) {
 			sig := c.Method.Type().(*types.Signature)
 			rs := in.applyContract(con, args, sig, c.Value.Type(), st, x.Pos(), x.Type())
 			in.setResult(x, rs)
@@ -80,12 +80,24 @@ func (in *Inst) call(x *ssa.Call, st *State) {
 			return
 		}
 	}
-	if con := e.W.contractFor(callee); con != nil {
+	if con := e.W.contractFor(callee); con != nil && (!e.abstract || con.AbstractToo || e.W.ghostRelevant(con)) {
 		if con.Sig == nil {
 			con.Sig = callee.Signature
 		}
 		rs := in.applyContract(con, args, callee.Signature, nil, st, x.Pos(), x.Type())
 		in.setResult(x, rs)
+		return
+	}
+	if e.abstract {
+		// abstract mode keeps queries small: a callee is inlined only when it can affect the ghost
+		// state (it contains, transitively, a call named in the contract's assert/ghostset clauses or a
+		// call of a ghost-relevant contract); everything else is an unknown call
+		if e.W.abstractRelevant(callee, e.top.con, 0, map[*ssa.Function]bool{}) && !in.recursive(callee) && in.depth < 6 {
+			rs := in.inline(callee, args, nil, st, x.Pos())
+			in.setResult(x, in.packResults(rs, x.Type()))
+			return
+		}
+		in.unknownCall(x, callee.String(), st)
 		return
 	}
 	if e.W.inlinable(callee, in.depth) && !in.recursive(callee) {
@@ -343,6 +355,9 @@ func (in *Inst) inline(fn *ssa.Function, args []Val, bindings []Val, st *State, 
 	sub := e.newInst(fn, in)
 	sub.callPos = pos
 	sub.recvNonNil = true
+	if c := e.W.contracts[funcKey(fn)]; c != nil && c.Kind == "func" && fn.Parent() != nil {
+		sub.con = c // closures inlined into their parent use their own contract for loop invariants
+	}
 	if len(args) != len(fn.Params) {
 		e.fail("inline %s: %d args for %d params", fn.Name(), len(args), len(fn.Params))
 	}
@@ -429,8 +444,29 @@ func (in *Inst) deferInstr(x *ssa.Defer, st *State) {
 	e.deferSites = append(e.deferSites, ds)
 }
 
+// retIndex: source-order index of a return instruction of fn.
+func retIndex(fn *ssa.Function, ret *ssa.Return) int {
+	n := 0
+	for _, b := range fn.Blocks {
+		for _, ins := range b.Instrs {
+			if r, ok := ins.(*ssa.Return); ok && r != ret && r.Pos() < ret.Pos() {
+				n++
+			}
+		}
+	}
+	return n
+}
+
 func (in *Inst) runDefers(st *State) {
 	e := in.e
+	if in.parent == nil && e.curBlk != nil {
+		for _, ins := range e.curBlk.Instrs {
+			if r, ok := ins.(*ssa.Return); ok {
+				e.curRet, e.curRetPos = retIndex(in.fn, r), r.Pos()
+			}
+		}
+		defer func() { e.curRet = -1 }()
+	}
 	for i := len(e.deferSites) - 1; i >= 0; i-- {
 		ds := e.deferSites[i]
 		if ds.inst != in {
@@ -824,7 +860,20 @@ func (in *Inst) havocObject(r string, T types.Type, st *State) {
 
 // callAsserts: contract-file assertions attached to call sites of the function under contract.
 func (in *Inst) callAsserts(x *ssa.Call, st *State, after bool) {
-	if in.con == nil || (len(in.con.Asserts) == 0 && len(in.con.Ghosts) == 0) {
+	var cons []*Contract
+	if in.con != nil {
+		cons = append(cons, in.con)
+	}
+	if top := in.e.top; top != nil && top != in && top.con != nil && top.con != in.con {
+		cons = append(cons, top.con)
+	}
+	for _, con := range cons {
+		in.callAssertsOf(con, con != in.con, x, st, after)
+	}
+}
+
+func (in *Inst) callAssertsOf(con *Contract, inherited bool, x *ssa.Call, st *State, after bool) {
+	if len(con.Asserts) == 0 && len(con.Ghosts) == 0 {
 		return
 	}
 	if st.reach == "false" {
@@ -835,7 +884,10 @@ func (in *Inst) callAsserts(x *ssa.Call, st *State, after bool) {
 		return
 	}
 	ord := in.callOrdinal(x, name)
-	for i, ca := range in.con.Asserts {
+	if inherited {
+		ord = -2 // clauses of the enclosing function under contract apply to inlined code only when they name no ordinal
+	}
+	for i, ca := range con.Asserts {
 		if ca.Callee != name || ca.After != after || (ca.Ordinal >= 0 && ca.Ordinal != ord) {
 			continue
 		}
@@ -853,10 +905,17 @@ func (in *Inst) callAsserts(x *ssa.Call, st *State, after bool) {
 		if after {
 			when = "after"
 		}
-		o := in.e.oblige("assert", fmt.Sprintf("%s:%s#%d/%d", when, name, ord, i), x.Pos(), st.reach, t)
+		site := fmt.Sprint(ord)
+		if inherited {
+			site = "in:" + in.fn.Name()
+			if in.e.curRet >= 0 {
+				site += fmt.Sprintf("@ret%d", in.e.curRet)
+			}
+		}
+		o := in.e.oblige("assert", fmt.Sprintf("%s:%s#%s/%d", when, name, site, i), x.Pos(), st.reach, t)
 		o.Top = true
 	}
-	for _, gu := range in.con.Ghosts {
+	for _, gu := range con.Ghosts {
 		if gu.Callee != name || (gu.Ordinal >= 0 && gu.Ordinal != ord) || gu.Before == after {
 			continue
 		}
@@ -974,4 +1033,120 @@ func (in *Inst) crlfCheck(x *ssa.Call, xs Val, st *State) {
 		j, slcOff(xs.T), j, j, sAdd(slcOff(xs.T), slcLen(xs.T)), m, j, m, j, m, j)
 	o := e.oblige("crlf", key, x.Pos(), st.reach, goal)
 	o.Top = true
+}
+
+// ghostRelevant: does the contract speak about ghost state?
+func (w *World) ghostRelevant(con *Contract) bool {
+	if con.ghostRel != 0 {
+		return con.ghostRel > 0
+	}
+	rel := false
+	for _, mi := range con.Modifies {
+		if mi.Kind == modGhost {
+			rel = true
+		}
+		if mi.Kind == modField && w.mentionsGhost(mi.Expr) {
+			rel = true
+		}
+	}
+	for _, c := range con.Requires {
+		if w.mentionsGhost(c.Expr) {
+			rel = true
+		}
+	}
+	for _, c := range con.Ensures {
+		if w.mentionsGhost(c.Expr) {
+			rel = true
+		}
+	}
+	con.ghostRel = -1
+	if rel {
+		con.ghostRel = 1
+	}
+	return rel
+}
+
+func (w *World) mentionsGhost(x ast.Expr) bool {
+	found := false
+	ast.Inspect(x, func(n ast.Node) bool {
+		switch v := n.(type) {
+		case *ast.Ident:
+			if _, ok := w.ghosts[v.Name]; ok {
+				found = true
+			}
+			if m, ok := w.macros[v.Name]; ok && w.mentionsGhost(m.Body) {
+				found = true
+			}
+		case *ast.SelectorExpr:
+			for k := range w.ghosts {
+				if strings.HasSuffix(k, "."+v.Sel.Name) && strings.Count(k, ".") == 2 {
+					found = true
+				}
+			}
+		}
+		return !found
+	})
+	return found
+}
+
+// abstractRelevant: can calling fn touch the ghost state named by the top-level contract?
+func (w *World) abstractRelevant(fn *ssa.Function, top *Contract, depth int, seen map[*ssa.Function]bool) bool {
+	if fn == nil || len(fn.Blocks) == 0 || depth > 6 || seen[fn] {
+		return false
+	}
+	seen[fn] = true
+	names := map[string]bool{}
+	if top != nil {
+		for _, a := range top.Asserts {
+			names[a.Callee] = true
+		}
+		for _, g := range top.Ghosts {
+			names[g.Callee] = true
+		}
+	}
+	for _, b := range fn.Blocks {
+		for _, ins := range b.Instrs {
+			var c *ssa.CallCommon
+			switch x := ins.(type) {
+			case *ssa.Call:
+				c = &x.Call
+			case *ssa.Defer:
+				c = &x.Call
+			case *ssa.Go:
+				c = &x.Call
+			case *ssa.MakeClosure:
+				if w.abstractRelevant(x.Fn.(*ssa.Function), top, depth+1, seen) {
+					return true
+				}
+				continue
+			default:
+				continue
+			}
+			if names[calleeName(c)] {
+				return true
+			}
+			if c.IsInvoke() {
+				if con := w.ifaceContract(c); con != nil && w.ghostRelevant(con) {
+					return true
+				}
+				continue
+			}
+			cal := c.StaticCallee()
+			if cal == nil {
+				continue
+			}
+			if con := w.contractFor(cal); con != nil {
+				if w.ghostRelevant(con) {
+					return true
+				}
+				continue
+			}
+			if cal.Pkg != nil && strings.HasPrefix(cal.Pkg.Pkg.Path(), "github.com/cloudwego/hertz") {
+				if w.abstractRelevant(cal, top, depth+1, seen) {
+					return true
+				}
+			}
+		}
+	}
+	return false
 }
